@@ -170,7 +170,9 @@ CLAIMED["C09"] = dict(
          "(roundDiv_nearest_even), field padding law. PARTIAL for f F e E g G: the model places the specification's sign and padding "
          "around the digit text (float_text_partial); that the implementation's Ryu digit generation yields the specification's "
          "digits is established by correspondence only (all generated cases, checked against glibc and the exact reference), not by "
-         "a theorem. The type-directed print family is modelled and tied by correspondence (no theorem yet).",
+         "a theorem. The type-directed print family: each value is rendered as its default conversion (print_default_conversions) "
+         "and a print call writes the concatenated text and returns its length (print_writes_text); embedded format strings go "
+         "through the same formatter; gp_count_fmt_specs vs. arguments consumed is checked by correspondence only.",
     note="Trusted: harness c09.c incl. its x86-64 variadic call shape, the driver, the Python reference (oracle). glibc's %#g carry "
          "bug is arbitrated by the exact reference. Not modelled: %S, %lc, pf_printf/pf_fprintf buffering.",
     ref="6 C09")
@@ -184,8 +186,9 @@ CLAIMED["C10"] = dict(
          "and arguments with a defined text and every limit n incl. 0: pf_snprintf stays inside n bytes, returns the complete "
          "length and leaves exactly the first min(len,n) bytes of the complete output, with or without the terminator "
          "(bounded_prefix).",
-    note="The bounded print/println front ends (byte buffers and strings) are modelled on the same primitives and tied by "
-         "correspondence at every n (no theorem yet). Floats: the emission is proved for every plan; which plan the Ryu code "
+    note="Bounded print: inside n bytes, prefix, complete length (bounded_print); bounded println: objects, separators and the "
+         "newline all inside n bytes (bounded_println_in_bounds); gp_str_print's reservation suffices for integers, chars, bools, "
+         "strings, pointers (estimate_suffices; the 15-byte %g bound by correspondence). Floats: the emission is proved for every plan; which plan the Ryu code "
          "computes is C09's correspondence. Trusted: harness c09.c, driver.",
     ref="6 C10")
 
